@@ -12,13 +12,14 @@ EXTENDS KcpCore, Json
 Trace == ndJsonDeserialize("trace.ndjson")
 VARIABLES l,      \* next line
           latch,  \* latch[e]: snd_una of e at its last flush that declared a timeout loss, -1 if none since una moved
+          reinfl, \* reinfl[e]: while latched, a later flush of e made a fast/early retransmission
           latched,\* the step just consumed happened while its endpoint was latched and did not move snd_una
           sent,   \* sent[e]: lengths accepted by Send at e (message mode)
           rcnt,   \* rcnt[e]: number of successful Recv at e
           cf      \* configuration of the current trace (reset line)
-ovars == <<l, latch, latched, sent, rcnt, cf>>
+ovars == <<l, latch, reinfl, latched, sent, rcnt, cf>>
 
-Init == /\ l = 1 /\ latch = [e \in {1, 2} |-> -1] /\ latched = FALSE
+Init == /\ l = 1 /\ latch = [e \in {1, 2} |-> -1] /\ latched = 0 /\ reinfl = [e \in {1, 2} |-> FALSE]
         /\ sent = [e \in {1, 2} |-> <<>>] /\ rcnt = [e \in {1, 2} |-> 0]
         /\ cf = [stream |-> 1, clean |-> FALSE, forged |-> FALSE]
 
@@ -26,7 +27,7 @@ Next ==
   /\ l <= Len(Trace) /\ l' = l + 1
   /\ LET t == Trace[l] IN
      IF t.ev = "reset"
-       THEN /\ latch' = [e \in {1, 2} |-> -1] /\ latched' = FALSE
+       THEN /\ latch' = [e \in {1, 2} |-> -1] /\ latched' = 0 /\ reinfl' = [e \in {1, 2} |-> FALSE]
             /\ sent' = [e \in {1, 2} |-> <<>>] /\ rcnt' = [e \in {1, 2} |-> 0]
             /\ cf' = [stream |-> t.cfg.stream, clean |-> t.clean, forged |-> t.forged]
        ELSE
@@ -35,11 +36,14 @@ Next ==
             THEN LET e == t.e
                      una == t.st.snd_una
                      cur == IF latch[e] # -1 /\ una # latch[e] THEN -1 ELSE latch[e]
-                 IN /\ latched' = (latch[e] # -1 /\ una = latch[e])
+                     isl == latch[e] # -1 /\ una = latch[e]
+                 IN /\ latched' = (IF isl THEN (IF reinfl[e] THEN 2 ELSE 1) ELSE 0)
+                    /\ reinfl' = [reinfl EXCEPT ![e] = IF t.adm.lost > 0 /\ t.adm.nocwnd = 0 THEN FALSE
+                                                       ELSE IF ~isl THEN FALSE ELSE @ \/ t.adm.change > 0]
                     /\ latch' = [latch EXCEPT ![e] = IF t.adm.lost > 0 /\ t.adm.nocwnd = 0 THEN una ELSE cur]
                     /\ sent' = IF t.name = "Send" /\ t.ret = 0 THEN [sent EXCEPT ![e] = Append(@, t.a)] ELSE sent
                     /\ rcnt' = IF t.name = "Recv" /\ t.ret >= 0 THEN [rcnt EXCEPT ![e] = @ + 1] ELSE rcnt
-            ELSE UNCHANGED <<latch, sent, rcnt>> /\ latched' = FALSE
+            ELSE UNCHANGED <<latch, reinfl, sent, rcnt>> /\ latched' = 0
 Spec == Init /\ [][Next]_ovars
 
 Obs == Trace[l - 1]
@@ -82,13 +86,19 @@ C04_TruthfulWnd     == IsEndOp => \A i \in 1..Len(Obs.out) : \A j \in 1..Len(Obs
 C04_AdmitBelowWindow ==
   IsEndOp /\ Obs.adm.n > 0 =>
      Obs.adm.after <= Min(Obs.adm.swnd, Min(Obs.adm.rwnd, IF Obs.adm.nocwnd = 0 THEN Obs.adm.cwnd ELSE Obs.adm.swnd))
-C04_NoAdmitAfterLoss == IsEndOp /\ latched => Obs.adm.n = 0
+(* latched: 0 no, 1 yes, 2 yes and a fast/early retransmission has happened since (the known-finding corner) *)
+C04_NoAdmitAfterLoss            == IsEndOp /\ latched = 1 => Obs.adm.n = 0
+C04_NoAdmitAfterLoss_Reinflated == IsEndOp /\ latched = 2 => Obs.adm.n = 0
 
 (* ---- C05: no panic ---- *)
 C05_NoPanic == IsOp => ~Obs.panic
 
 (* ---- C10 (core): the output callback never gets more than the MTU, nor an empty packet ---- *)
 C10_OutSize == IsEndOp => \A i \in 1..Len(Obs.out) : Obs.out[i].size > 0 /\ Obs.out[i].size <= Obs.st.mtu
+
+(* ---- C12: the run shifted in sequence-number / clock space is the unshifted run, shifted ---- *)
+(* a "pair" line holds the normalised observations of the same step executed at offset 0 (a) and at the offsets (b) *)
+C12_ShiftInvariant == l > 1 /\ Obs.ev = "pair" => Obs.a = Obs.b
 
 (* ---- C18 ---- *)
 C18_RtoBounds == IsEndOp => RtoBounds(Obs.st)
